@@ -43,6 +43,7 @@ type LangObs struct {
 type langOpts struct {
 	env     map[string]string // option key -> value of its environment variable (variable VQ_<KEY>)
 	builtin bool              // use BoolOpt/StringsOpt/StringsArg instead of the logging custom type
+	sharedDefault bool        // built-in types only: every multi-valued declaration gets the same caller-owned default slice
 	policy  flag.ErrorHandling
 	keepErr bool
 	first   []string // when non-nil: this command line is run first, on the same instance
@@ -58,6 +59,21 @@ func optName(o ref.OptDecl) string {
 }
 
 var sharedBuf bytes.Buffer
+
+// the content of the default slice handed to every multi-valued declaration in sharedDefault mode; no token alphabet can spell it
+var sharedDefaultContent = []string{"\x00dflt0", "\x00dflt1", "\x00dflt2"}
+
+func sameStrings(a, b []string) bool {
+	if len(a) != len(b) {
+		return false
+	}
+	for i := range a {
+		if a[i] != b[i] {
+			return false
+		}
+	}
+	return true
+}
 
 // runLang builds a fresh application from the declarations and runs it once.
 func runLang(d *ref.Decl, spec string, argv []string, lo langOpts) LangObs {
@@ -93,6 +109,10 @@ func runLang(d *ref.Decl, spec string, argv []string, lo langOpts) LangObs {
 	} else {
 		bools := make([]*bool, nc)
 		strs := make([]*[]string, nc)
+		var shared []string
+		if lo.sharedDefault {
+			shared = append(make([]string, 0, 4), sharedDefaultContent...)
+		}
 		for i, o := range d.Opts {
 			ev := ""
 			if _, ok := lo.env[o.Key]; ok {
@@ -101,12 +121,12 @@ func runLang(d *ref.Decl, spec string, argv []string, lo langOpts) LangObs {
 			if o.Flag {
 				bools[i] = app.Bool(cli.BoolOpt{Name: optName(o), EnvVar: ev, SetByUser: &sbu[i]})
 			} else {
-				strs[i] = app.Strings(cli.StringsOpt{Name: optName(o), EnvVar: ev, SetByUser: &sbu[i]})
+				strs[i] = app.Strings(cli.StringsOpt{Name: optName(o), EnvVar: ev, SetByUser: &sbu[i], Value: shared})
 			}
 		}
 		for j, a := range d.Args {
 			i := len(d.Opts) + j
-			strs[i] = app.Strings(cli.StringsArg{Name: a, SetByUser: &sbu[i]})
+			strs[i] = app.Strings(cli.StringsArg{Name: a, SetByUser: &sbu[i], Value: shared})
 		}
 		read = func(i int) []string {
 			if bools[i] != nil {
@@ -114,6 +134,9 @@ func runLang(d *ref.Decl, spec string, argv []string, lo langOpts) LangObs {
 					return []string{"true"}
 				}
 				return nil
+			}
+			if lo.sharedDefault && sameStrings(*strs[i], sharedDefaultContent) {
+				return nil // still the declared default: nothing came from the command line
 			}
 			return append([]string(nil), (*strs[i])...)
 		}
